@@ -93,7 +93,7 @@ theorem img_read {img : TrackImg} {offs : Nat → Nat} {cap n vol o : Nat} {gaps
         hgaps', hn] at hw
       rw [hp, Nat.add_zero, Nat.add_assoc, hw, ← Nat.add_assoc, Nat.add_mul_mod_self_right]
     exact {
-      lay := layout_congr inv.lay rfl rfl rfl rfl rfl
+      lay := layout_congr inv.lay rfl rfl rfl rfl rfl rfl
       vol_lt := inv.vol_lt
       sync := inv.sync
       canon := inv.canon
@@ -241,7 +241,7 @@ theorem img_write {img : TrackImg} {offs : Nat → Nat} {cap n vol o : Nat} {gap
         bytes := splice img.bytes (offs cyl) (pack (TrackRep.unload t' ++ (unpack ((img.bytes.drop (offs cyl)).take cap)).drop n)),
         headPtr := some t'.pos } cap = f := hf
     refine {
-      lay := layout_congr inv.lay rfl rfl rfl rfl (length_splice _ _ _ hinb)
+      lay := layout_congr inv.lay rfl rfl rfl rfl rfl (length_splice _ _ _ hinb)
       vol_lt := inv.vol_lt
       sync := by rw [hfe, ← hf]; exact inv.sync
       canon := ?_
